@@ -1786,7 +1786,7 @@ class Transaction(object):
                         continue
                 if not replace_signatures and key in [x.public_key for x in self.inputs[tid].signatures]:
                     _logger.info("Key %s already signed" % key.public_hex)
-                    break
+                    continue
 
                 if not key.private_byte:
                     raise TransactionError("Please provide a valid private key to sign the transaction")
